@@ -29,7 +29,7 @@ def run(chk, F):
 
 def gates(chk, F):
     # private helpers of eval_query are its own code (`extract function`); conformance_err is named by the rule and stays a call
-    fn = F.find(CORE, EVALQ, inline=True, keep=("::conformance_err", "::find_quantity", "::to_list"))
+    fn = F.find(CORE, EVALQ, inline=True, keep=("::conformance_err", "::find_quantity", "::to_list", "Option::<T>::ok_or_else", "Option::<T>::map", "Option::<T>::and_then"))
     fk = "rink_core::" + EVALQ
     shows = [(bb, t) for bb, t in fn.calls() if "callee" in t and t["callee"]["path"].endswith("loader::context::Context::show")]
     if len(shows) != 2:
